@@ -141,6 +141,7 @@ impl State {
             "history" => self.run_history(case),
             "impl" => self.run_impl(case),
             "value_api" => self.run_value_api(case),
+            "cli" => self.run_cli(case),
             _ => {
                 self.count("unknown_kind");
             },
@@ -586,6 +587,50 @@ impl State {
             (Err(e), true) => self.fail("impl_model", format!("{src:?}: rejected with {e:?}, the builder model predicts a tree"), case, json!(null)),
         }
         self.sample("impl", json!({"source": src, "model_ok": want_ok, "model_error": case["err"]}));
+    }
+
+    // ------------------------------------------------------------------------------------------
+    // kind "cli": the command line program (path in EVALEXPR_BIN) with the given arguments: exit status and
+    // standard output must be the specification's (MC_Cli.tla; a diagnostic)
+    // ------------------------------------------------------------------------------------------
+    fn run_cli(&mut self, case: &J) {
+        let bin = match std::env::var("EVALEXPR_BIN") {
+            Ok(b) => b,
+            Err(_) => {
+                self.count("cli_skipped");
+                return;
+            },
+        };
+        let args: Vec<String> = case["args"].as_array().map(|a| a.iter().map(text_of).collect()).unwrap_or_default();
+        self.count("cli_cases");
+        let out = match std::process::Command::new(&bin).args(&args).output() {
+            Ok(o) => o,
+            Err(e) => {
+                self.fail("cli", format!("cannot run {bin}: {e}"), case, json!(null));
+                return;
+            },
+        };
+        let stdout = String::from_utf8_lossy(&out.stdout).to_string();
+        let want = text_of(&case["text"]);
+        let observed = json!({"status": out.status.code(), "stdout": stdout});
+        match case["k"].as_str().unwrap_or("any") {
+            "ok" => {
+                if !out.status.success() || stdout != want {
+                    self.fail("cli", format!("evalexpr {args:?}: status {:?}, stdout {stdout:?}; the specification says status 0, stdout {want:?}", out.status.code()), case, observed);
+                }
+            },
+            "fail" => {
+                if out.status.success() || !stdout.is_empty() {
+                    self.fail("cli", format!("evalexpr {args:?}: status {:?}, stdout {stdout:?}; the specification says failure and no output", out.status.code()), case, observed);
+                }
+            },
+            _ => {
+                if out.status.code().is_none() {
+                    self.fail("panic", format!("evalexpr {args:?} was killed by a signal"), case, observed);
+                }
+            },
+        }
+        self.sample("cli", json!({"args": args, "expected": case["k"], "stdout": want}));
     }
 
     // ------------------------------------------------------------------------------------------
